@@ -244,7 +244,7 @@ def run_harness(mode, cases, per_case_timeout=10, prepare=None):
             inp += json.dumps(c) + "\n"
         try:
             p = subprocess.run([VH, mode], input=inp, capture_output=True, text=True,
-                               timeout=per_case_timeout * len(batch) + 20, env=ENV)
+                               timeout=min(per_case_timeout * len(batch) + 20, 6 * 3600), env=ENV)
             lines = p.stdout.splitlines()
             if len(lines) == len(batch):
                 for (idx, _), l in zip(batch, lines):
